@@ -19,6 +19,8 @@ fn main() {
         "limits-record" => xv::limits::cmd_record(rest),
         "twin-replay" => xv::twin::cmd_replay(rest),
         "twin-record" => xv::twin::cmd_record(rest),
+        "meta-replay" => xv::twin::cmd_meta_replay(rest),
+        "meta-record" => xv::twin::cmd_meta_record(rest),
         other => {
             eprintln!("unknown subcommand {}", other);
             2
